@@ -45,6 +45,10 @@ class Report:
         self.is_known = None
         self.n_known_violations = 0
 
+    def has_new(self):
+        """a violation not covered by a known finding has been recorded"""
+        return len(self.violations) > self.n_known_violations
+
     def case(self, case, nontrivial, tags=()):
         self.evaluations += 1
         if len(self.violations) > self.n_known_violations and time.time() - self.t_start > (150 if self.tier == "quick" else 1800):
